@@ -8,5 +8,5 @@ MCDagImports == [p \in MCDagPkgs |-> CASE p = "a" -> {"b", "c"} [] p = "b" -> {"
 MCFeatures == {"pkg_type", "generic_type", "local_shadow_type", "local_only_type", "typeparam_shadow", "typeparam_generic_shadow", "local_const_shadow",
                "pkg_const", "pkg_func", "local_funcvar", "method_value", "method_pointer", "generic_method_value", "generic_method_pointer",
                "grouped_types", "pkg_alias", "imports_chain", "init_func", "blank_func", "interface_type", "grouped_consts", "local_alias_shadow",
-               "imports_replaced", "local_shadow_generic"}
+               "imports_replaced", "local_shadow_generic", "method_alias_value", "method_alias_pointer"}
 =============================================================================
